@@ -171,6 +171,18 @@ Definition inventory : list (string * list string) := map (fun e => (fst e, map 
 Lemma run_writes_confined : forallb (confinedb per_run_owners guarded_fields inventory) gen_run_writes = true.
 Proof. vm_compute. reflexivity. Qed.
 
+(* Run treats what the caller hands in as read-only: no write site outside load-only code stores through a *RunContext
+   or *Engine (several goroutines may share one RunContext), nor into go/ast, go/types or go/token objects *)
+Definition caller_owned (owner : string) : bool :=
+  String.eqb owner "RunContext" || String.eqb owner "Engine"
+  || String.prefix "ast." owner || String.prefix "types." owner || String.prefix "token." owner.
+
+Lemma run_arguments_read_only :
+  forallb (fun w : string * string * string => negb (caller_owned (snd (fst w)))) gen_run_writes
+  && existsb (fun e => String.eqb (fst e) "RunContext") gen_structs
+  && existsb (fun e => String.eqb (fst e) "Engine") gen_structs = true.
+Proof. vm_compute. reflexivity. Qed.
+
 (* no function writes a package-level variable of ruleguard / quasigo *)
 Lemma pkgvars_never_written : forallb (fun v : string * string * list string => match snd v with [] => true | _ => false end) gen_pkgvars = true.
 Proof. vm_compute. reflexivity. Qed.
